@@ -18,6 +18,7 @@
 #
 
 import logging
+import threading
 logger = logging.getLogger(__name__)
 
 from collections import deque, defaultdict
@@ -29,6 +30,8 @@ from spyne.util import six
 from spyne.model import ModelBase, Array, Iterable, ComplexModelBase
 from spyne.model.complex import XmlModifier
 from spyne.const import xml as namespace
+
+_ns_prefix_lock = threading.Lock()
 
 
 class InterfaceDocumentsBase(object):
@@ -410,20 +413,21 @@ class Interface(object):
             raise TypeError(ns)
 
         if not (ns in self.prefmap):
-            pref = "s%d" % self.__ns_counter
-            while pref in self.nsmap:
-                self.__ns_counter += 1
-                pref = "s%d" % self.__ns_counter
+            # prefixes can also be allocated while serving requests (e.g. for
+            # xsi:type values), so two threads must not pick the same one.
+            with _ns_prefix_lock:
+                if not (ns in self.prefmap):
+                    pref = "s%d" % self.__ns_counter
+                    while pref in self.nsmap:
+                        self.__ns_counter += 1
+                        pref = "s%d" % self.__ns_counter
 
-            self.prefmap[ns] = pref
-            self.nsmap[pref] = ns
+                    self.nsmap[pref] = ns
+                    self.prefmap[ns] = pref
 
-            self.__ns_counter += 1
+                    self.__ns_counter += 1
 
-        else:
-            pref = self.prefmap[ns]
-
-        return pref
+        return self.prefmap[ns]
 
     def add_class(self, cls, add_parent=True):
         if self.has_class(cls):
